@@ -95,6 +95,11 @@ theorem extractAtomic_bytes (n : Nat) (hl : Bool) (d : DecState) (hcb : d.cursor
       BaseType.isNumeric, odxassert, hb0, hcb, hk, hnl, this]
 
 
+/-- the length part of the leaf pair's decoder precondition (stated so that it survives additions to `Pair.ofObj.fits`) -/
+theorem ofObj_fits_len (o : Obj) (v : IVal) (d : DecState) (h : (Pair.ofObj o v).fits d) :
+    o.pos d.origin d.cursorByte + o.k ≤ d.msg.length := by
+  first | exact h | exact h.1
+
 /-! ### the byte payload as a pair -/
 
 /-- `n = bs.length` bytes at the cursor: the encoder is `emplace_atomic_value` of `8·n` bits of `A_BYTEFIELD` (for the empty
@@ -122,7 +127,7 @@ theorem Good.bytesAt (bs : Bytes) (hall : AllBytes bs) : Good (Pair.bytesAt bs) 
     refine Good.reDec (Good.ofObj (bytesObj bs.length) hok (.bytes bs) hr) (Pair.bytesAt bs) ?_ ?_
     · funext s; simp [Pair.bytesAt, Pair.ofObj, hne]
     · intro d hd hv hfit
-      have hfit' : d.cursorByte + (bytesObj bs.length).k ≤ d.msg.length := hfit
+      have hfit' : d.cursorByte + (bytesObj bs.length).k ≤ d.msg.length := ofObj_fits_len _ _ d hfit
       rw [bytesObj_k] at hfit'
       have hv' : (bytesObj bs.length).ofRaw (readNum d.msg d.cursorByte (bytesObj bs.length).k true / 2 ^ 0
           % 2 ^ (8 * bs.length)) = .bytes bs := hv
